@@ -171,6 +171,13 @@ def check_property(prop, tier, seed):
                     violations.append({"source": "pyvc", "kind": "obligation:" + ob["id"], "obligation": ob["id"],
                                        "msg": ob.get("detail", ""), "model": ob.get("model"),
                                        "replayed": ob.get("replayed", False), "case": ob.get("replay_case")})
+                elif ob.get("code_changed"):
+                    # the source of a function under contract differs from the tree the lock was made on, every obligation
+                    # of this task was discharged there, and this one no longer is: reported as the violation, with the
+                    # verifier's reason (no counter-model: the line ends with no-failing-input-found)
+                    violations.append({"source": "pyvc", "kind": "obligation:" + ob["id"], "obligation": ob["id"],
+                                       "msg": f"discharged on the tree of the lock file, now {ob['status']}: {str(ob.get('detail', ''))[:400]}",
+                                       "model": ob.get("model"), "replayed": False, "case": None, "solver": ob.get("solver")})
                 else:
                     undecided.append(ob)
 
@@ -185,6 +192,21 @@ def check_property(prop, tier, seed):
                 lines.append(f"ENGINE-ERROR property={prop} lean rejected lean/MetaLemmas.lean\n" + pl.stdout.decode(errors="replace")[-800:])
         except Exception as ex:  # lean missing: reported, not fatal for the property verdict
             lines.append(f"NOTE property={prop} lean not run: {ex!r}")
+
+    # ---- thorough tier: in-memory mutants of the functions under contract (vacuity guard; no verdict)
+    mutant_report = None
+    if tier == "thorough" and pf_summary is not None and cfg.get("mutants"):
+        mutant_report = []
+        for task, qual in cfg["mutants"]:
+            outj = tempfile.mktemp(prefix="verif_mut_", suffix=".json")
+            try:
+                subprocess.run([PY, "-m", "pyvc.mutants", task, qual, str(cfg.get("mutants_max", 20))], cwd=HERE,
+                               env=dict(env_for(0), PYVC_MUTANTS_JSON=outj), stdout=subprocess.PIPE, stderr=subprocess.PIPE, timeout=3000)
+                mutant_report.append(json.load(open(outj)))
+                os.unlink(outj)
+            except Exception as ex:
+                mutant_report.append({"task": task, "function": qual, "error": repr(ex)[:200]})
+        pf_summary["mutants"] = mutant_report
 
     # ---- print
     for l in kf_lines.values():
